@@ -1,3 +1,4 @@
+import re
 """C17 `units for` and `factorize` are dimensionally sound and complete.  DESIGN.md section 4, C17."""
 import hirutil as H
 import hirpp
@@ -109,6 +110,7 @@ def units_for(chk, F):
     else:
         line, pushes, OUT = units_for_loop(chk, fn, arm, regs[0])
     where = "%s:%d" % (fn.file, line)
+    category_keys(chk, fn, arm)
     # base unit push
     outside = [c for c in H.method_calls(arm["body"], "push") if (H.local_name(c["recv"]) or ("",))[0] == OUT and c not in pushes]
     ok_base = False
@@ -143,6 +145,69 @@ def units_for(chk, F):
     srt = [c for c in H.method_calls(arm["body"]) if c["name"] in ("sort", "sort_by", "sort_by_key") and (H.local_name(c["recv"]) or ("",))[0] == OUT]
     chk.decide(len(srt) == 1 and line < srt[0]["line"] < gline, "units-for-filter", FK, "sorted-before-grouping", "%s:%d" % (fn.file, srt[0]["line"] if srt else 0),
                "the list is sorted by category before grouping (each category forms one group)", "the listing is not sorted between filtering and grouping")
+
+
+def category_keys(chk, fn, arm):
+    """`grouped under its own category`: registry.categories is keyed by definition names (the loader inserts id.name), so every
+    lookup in the UnitsFor arm must use a definition name: the key of the registry.units entry, or a base unit's id. A key that came
+    out of Context::canonicalize (the long name of a base unit, `kilogram` for `kg`) is in no category: the unit lands under
+    Uncategorized although its definition names a category."""
+    gets = [c for c in H.method_calls(arm["body"], "get") if H.expr_str(c["recv"]).endswith("registry.categories")]
+    if not gets:
+        raise AnchorLost("UnitsFor arm: no lookup in registry.categories")
+    # bindings: lid -> ("loop", iterator expr) | ("let", init expr) | ("pat", scrutinee)
+    bind = {}
+    for it, pat, body, line, loop in for_loops(arm["body"]):
+        for b in hir_walk(pat):
+            if b.get("pk") == "bind":
+                bind[b["lid"]] = ("loop", it)
+    for n in hir_walk(arm["body"]):
+        if n.get("k") == "Let" and n.get("pat") and n.get("init"):
+            for b in hir_walk(n["pat"]):
+                if b.get("pk") == "bind":
+                    bind.setdefault(b["lid"], ("let", n["init"]))
+        if n.get("sk") == "let" and n.get("pat") and n.get("init"):
+            for b in hir_walk(n["pat"]):
+                if b.get("pk") == "bind":
+                    bind.setdefault(b["lid"], ("let", n["init"]))
+        if n.get("k") == "Closure":
+            src = None
+        if n.get("k") == "Assign" and H.local_name(n["lhs"]):
+            bind[H.local_name(n["lhs"])[1]] = ("let", n["rhs"])
+
+    def origin(e, depth=0):
+        """'defname' | 'canonical' | 'unknown' for a key expression."""
+        txt = H.expr_str(e)
+        if any(c.get("k") == "MethodCall" and c["name"] == "canonicalize" for c in hir_walk(e)):
+            return "canonical"
+        ln = H.local_name(e)
+        if ln and depth < 6:
+            b = bind.get(ln[1])
+            if b is None:
+                return "unknown"
+            kind, src = b
+            if kind == "loop":
+                return "defname" if re.match(r"ctx\.registry\.(units|definitions)\b", H.expr_str(src)) else "unknown"
+            if "as_single" in H.expr_str(src):
+                return "defname"   # the BaseUnit of a one-factor dimensionality; its id is the definition name
+            return origin(src, depth + 1)
+        # a method chain on a local: as_str()/id/to_string()/clone()/borrow on a base unit or a definition name keeps the origin
+        inner = [x for x in hir_walk(e) if x.get("k") == "Path" and (x.get("r") or {}).get("res") == "local"]
+        if len(inner) == 1 and all(c["name"] in ("as_str", "to_string", "clone", "to_owned", "borrow", "as_ref", "deref", "unwrap_or_else", "unwrap_or") for c in H.method_calls(e)):
+            return origin(inner[0], depth + 1)
+        return "unknown"
+
+    for g in gets:
+        o = origin(g["args"][0])
+        key = H.expr_str(g["args"][0])
+        if o == "unknown":
+            raise AnchorLost("UnitsFor arm: cannot tell where the category key `%s` comes from" % key)
+        inloop = any(g is x for it, pat, body, line, loop in for_loops(arm["body"]) for x in hir_walk(body)) or \
+            any(g is x for c in hir_walk(arm["body"]) if c.get("k") == "Closure" for x in hir_walk(c))
+        chk.decide(o == "defname", "units-for-filter", FK, "category-key-is-definition-name:%s" % ("listed-unit" if inloop else "base-unit"), "%s:%d" % (fn.file, g["line"]),
+                   "the category of a listed name is looked up under its definition name (`%s`)" % key,
+                   "the category is looked up under `%s`, which comes out of canonicalize(): categories are keyed by definition names, so "
+                   "`units for mass` lists kilogram under Uncategorized instead of SI Base Units" % key)
 
 
 def units_for_loop(chk, fn, arm, reg):
